@@ -42,7 +42,16 @@ type ditem struct {
 //   - a merge_start is placed right after the event that published the epoch it captured;
 //   - a persist_prepared is never placed before the event that published its epoch (the hook of
 //     an introducer step runs just after the root swap, so another goroutine can see the new root
-//     a moment before the event is recorded).
+//     a moment before the event is recorded; with BLEVE_VERIF_LOCKED_INTRO=1, which cmd/c03 sets,
+//     the introducer reports under rootLock and this - like the segfile_written rule - never fires:
+//     the stats deferred_* count how often the rules were needed);
+//   - a zap_remove of the output of a merge that is still open waits for that merge's
+//     merge_abandoned (the un-marking precedes the hook point in merge.go);
+//   - every event is reported synchronously by the goroutine that performed the step, after the
+//     step (zap_remove: before it) and before that goroutine's next step, so the stream order of
+//     two events of different goroutines can differ from the order of the steps only if the later
+//     reported one was performed without a lock shared with the other; the rules above cover the
+//     dependencies dstep checks across goroutines.
 func DiskTerms(evs []*scorch.VerifEvent, n *strace.Namer, ver strace.VersionOf) (terms []cf.T, stats map[string]int) {
 	stats = map[string]int{}
 	var out []ditem
@@ -61,6 +70,17 @@ func DiskTerms(evs []*scorch.VerifEvent, n *strace.Namer, ver strace.VersionOf) 
 	holding := false
 	var holdDone func() bool       // true once the awaited event has been placed
 	knownSids := map[uint64]bool{} // segment ids allocated by events placed so far
+	// new segment ids of merges that have started and have neither been introduced nor abandoned
+	openMerges := map[uint64]bool{}
+	awaitedAbort := uint64(0) // != 0: the hold waits for the merge_abandoned of this segment id
+	release := func() {
+		if holding && holdDone() {
+			out = append(out, held...)
+			held = nil
+			holding = false
+			awaitedAbort = 0
+		}
+	}
 	push := func(it ditem) {
 		if holding {
 			held = append(held, it)
@@ -130,11 +150,12 @@ func DiskTerms(evs []*scorch.VerifEvent, n *strace.Namer, ver strace.VersionOf) 
 			if e.Kind == "introduce" && e.NewSegID != 0 {
 				knownSids[e.NewSegID] = true
 			}
-			if holding && holdDone() {
-				out = append(out, held...)
-				held = nil
-				holding = false
+			if e.Kind == "merge_finish" {
+				for _, task := range e.Tasks {
+					delete(openMerges, task.New)
+				}
 			}
+			release()
 		case "merge_start":
 			t, _ := strace.TermOf(e, n, ver)
 			it := ditem{term: cf.App("XCore", t), fileMerge: e.FileMerge}
@@ -144,6 +165,7 @@ func DiskTerms(evs []*scorch.VerifEvent, n *strace.Namer, ver strace.VersionOf) 
 			// handed to the introducer is garbage the model need not know about)
 			for _, task := range e.Tasks {
 				knownSids[task.New] = true
+				openMerges[task.New] = true
 				if mergedWritten[task.New] {
 					it.files = append(it.files, task.New)
 					delete(mergedWritten, task.New)
@@ -157,6 +179,7 @@ func DiskTerms(evs []*scorch.VerifEvent, n *strace.Namer, ver strace.VersionOf) 
 				}
 			} else {
 				pending = append(pending, pend{it, e.Epoch, true})
+				stats["deferred_merge_start"]++
 			}
 		case "persist_prepared":
 			var ints []cf.T
@@ -175,6 +198,7 @@ func DiskTerms(evs []*scorch.VerifEvent, n *strace.Namer, ver strace.VersionOf) 
 				holding = true
 				holdDone = func() bool { return published[ep] }
 				held = append(held, it)
+				stats["deferred_prepare"]++
 			}
 		case "copy_start":
 			push(ditem{term: "XCopyStart"})
@@ -200,6 +224,7 @@ func DiskTerms(evs []*scorch.VerifEvent, n *strace.Namer, ver strace.VersionOf) 
 						holding = true
 						holdDone = func() bool { return knownSids[sid] }
 						held = append(held, it)
+						stats["deferred_segfile"]++
 					}
 				}
 			case "memmerge_written", "filemerge_written":
@@ -208,8 +233,17 @@ func DiskTerms(evs []*scorch.VerifEvent, n *strace.Namer, ver strace.VersionOf) 
 				}
 			case "merge_abandoned":
 				if len(e.Args) > 0 {
-					push(ditem{term: cf.App("XMergeAbort", cf.U(e.Args[0])), fileMerge: len(e.Args) > 1 && e.Args[1] == 1})
+					it := ditem{term: cf.App("XMergeAbort", cf.U(e.Args[0])), fileMerge: len(e.Args) > 1 && e.Args[1] == 1}
+					delete(openMerges, e.Args[0])
 					stats["merge_abandoned"]++
+					if holding && awaitedAbort == e.Args[0] {
+						// the purger already acted on this abandonment (see zap_remove): it took effect
+						// before the removal that is waiting for it
+						out = append(out, it)
+						release()
+					} else {
+						push(it)
+					}
 				}
 			case "persist_before_commit":
 				push(ditem{term: "XCommitIntent"})
@@ -225,8 +259,23 @@ func DiskTerms(evs []*scorch.VerifEvent, n *strace.Namer, ver strace.VersionOf) 
 				if len(e.IDs) > 0 {
 					id, err := strconv.ParseUint(strings.TrimSuffix(e.IDs[0], ".zap"), 16, 64)
 					if err == nil {
-						push(ditem{term: cf.App("XRemoveZap", cf.U(id))})
+						it := ditem{term: cf.App("XRemoveZap", cf.U(id))}
 						stats["zap_remove"]++
+						if !holding && openMerges[id] {
+							// the output of a merge that is still open is being removed: the merging
+							// goroutine has un-marked the file (merge.go: unmarkIneligibleForRemoval is
+							// called BEFORE the merge_abandoned hook point), the purger saw that under
+							// rootLock and got here first.  The removal waits for the abandonment (or,
+							// if the merge is introduced after all, for that: then the model rejects it).
+							mid := id
+							holding = true
+							awaitedAbort = mid
+							holdDone = func() bool { return !openMerges[mid] }
+							held = append(held, it)
+							stats["deferred_zap_remove"]++
+						} else {
+							push(it)
+						}
 					}
 				}
 			}
@@ -250,12 +299,15 @@ func DiskTerms(evs []*scorch.VerifEvent, n *strace.Namer, ver strace.VersionOf) 
 				pending = nil
 				held = nil
 				holding = false
+				awaitedAbort = 0
+				openMerges = map[uint64]bool{}
 				mergedWritten = map[uint64]bool{}
 				out = append(out, ditem{term: "XCrash"})
 				stats["crash"]++
 			case "recover":
-				// the note is emitted once Open has returned; recovery itself (load the newest
-				// snapshot, delete unnamed files) happened at the very start of the session
+				// put in front of the session's events by the parent process (which read the newest
+				// snapshot epoch off root.bolt while the index was closed): the background goroutines
+				// of a reopened index emit events before Open returns to the child's main goroutine
 				pos := len(out)
 				for i := len(out) - 1; i >= 0; i-- {
 					if out[i].term == "XCrash" {
@@ -282,15 +334,20 @@ func DiskTerms(evs []*scorch.VerifEvent, n *strace.Namer, ver strace.VersionOf) 
 				}
 			case "rollback":
 				out = append(out, ditem{term: cf.App("XRollback", cf.U(e.Args[0]))})
+			// observations made by harness goroutines keep their place in the stream: while events
+			// are held back they wait behind them (what they saw includes the held steps)
+			case "unsettled":
+				stats["unsettled"]++
 			case "bolt_epochs":
-				out = append(out, ditem{term: cf.App("XBoltEpochs", cf.ListOf(e.Args, cf.U))})
+				push(ditem{term: cf.App("XBoltEpochs", cf.ListOf(e.Args, cf.U))})
+				stats["bolt_epochs"]++
 			case "dir_begin":
-				out = append(out, ditem{term: "XDirBegin"})
+				push(ditem{term: "XDirBegin"})
 			case "dir_end":
-				out = append(out, ditem{term: cf.App("XDirEnd", cf.ListOf(e.Args, cf.U))})
+				push(ditem{term: cf.App("XDirEnd", cf.ListOf(e.Args, cf.U))})
 				stats["listing"]++
 			case "quiescent":
-				out = append(out, ditem{term: cf.App("XQuiescent", cf.ListOf(e.Args, cf.U))})
+				push(ditem{term: cf.App("XQuiescent", cf.ListOf(e.Args, cf.U))})
 				stats["quiescent"]++
 			case "copy_dest":
 				var ds []cf.T
@@ -301,7 +358,7 @@ func DiskTerms(evs []*scorch.VerifEvent, n *strace.Namer, ver strace.VersionOf) 
 						ds = append(ds, cf.Pair(cf.Int(i), cf.Some(cf.Z(int64(a)-1))))
 					}
 				}
-				out = append(out, ditem{term: cf.App("XCopyDest", cf.U(e.Args[0]), cf.List(ds))})
+				push(ditem{term: cf.App("XCopyDest", cf.U(e.Args[0]), cf.List(ds))})
 			}
 		}
 	}
